@@ -149,6 +149,19 @@ def cell_job(job):
                 from eko import basis_rotation as br
                 partons = np.array([(rotated[ik] if rotated is not None else ker.partons).get(pid, 0.0) for pid in br.flavor_basis_pids])
                 expected[o] = expected.get(o, 0) + np.outer(partons, xc * ora)
+        # which masses the massive classes were built with (per class: one kernel set per massive quark)
+        if cell["fns"] == "FFNS" and x == xs[0]:
+            th_m2 = [4.0, 25.0, 144.0]          # make_element: mc=2, mb=5, mt=12
+            bycls = {}
+            for ker in kers:
+                m2 = getattr(ker.coeff, "m2hq", None)
+                if m2 is not None and type(ker.coeff).__module__.split(".")[-2] == "heavy":
+                    bycls.setdefault(type(ker.coeff).__name__, set()).add(float(m2))
+            for cname, ms in sorted(bycls.items()):
+                lines.append(dict(what="masses", hist=cell.get("hist", ""), kind=cell["kind"], proc=cell["proc"], fns=cell["fns"], pto=cell["pto"], x=x,
+                                  ratio=cell.get("ratio", 0), nf=cell["nf"], nfff=cell["nfff"], flav=cell["flav"], cls=cname, order=0, distinct=len(ms),
+                                  all_theory_masses=all(any(abs(m - t) <= 1e-12 * t for t in th_m2) for m in ms),
+                                  note=f"class {cname}: masses^2 {sorted(ms)}"))
         # (b) assembly
         try:
             res = e.get_result()
@@ -230,12 +243,16 @@ def run(ctx):
         ("finite", lambda l: dict(l, finite=False) if l["what"] in ("vector", "finite") else None),
         ("zeros", lambda l: dict(l, zeros_ok=False) if l["what"] == "vector" else None),
         ("element", lambda l: dict(l, order=7) if l["what"] == "vector" else None),
-        ("outcome", lambda l: dict(l, outcome="Crash_KeyError") if l["what"] == "assembly" else None)])
+        ("outcome", lambda l: dict(l, outcome="Crash_KeyError") if l["what"] == "assembly" else None),
+        ("masses", lambda l: dict(l, distinct=l["distinct"] - 1) if l["what"] == "masses" and l["proc"] == "NC" and l["flav"] == "total" else None)])
     for oid, clause in bad.items():
         ln = uniq[oid]
         if ln["what"] == "vector":
             key = f"vector:{ln['kind']}_{ln['pc']}:{ln['cls']}:order{ln['order']}:{clause}"
             what = f"{ln['cls']} ({ln['kind']}_{ln['pc']}) order {ln['order']} nf={ln['nf']} {ln['fns']} x={ln['x']}: {clause} [{ln['note']}]"
+        elif ln["what"] == "masses":
+            key = f"masses:{ln['kind']}:{ln['proc']}:{ln['fns']}{ln['nfff']}:{ln['cls']}:{clause}"
+            what = f"element {ln['kind']} {ln['proc']} {ln['fns']} NfFF={ln['nfff']} pto={ln['pto']}: {clause} [{ln['note']}]"
         elif ln["what"] == "finite":
             key = f"finite:{ln['kind']}:{ln['proc']}:{ln['fns']}:pto{ln['pto']}:{clause}"
             what = f"element {ln['kind']} {ln['proc']} {ln['fns']} pto={ln['pto']} nf={ln['nf']} x={ln['x']}: {clause} [{ln['note']}]"
